@@ -43,3 +43,9 @@ package api
 //@   opt scenario cancel_dispose_wait
 //@   requires ctx != nil
 //@   ensures waited: old(ctx.activeBuild) == nil || waited(&old(ctx.activeBuild).waitGroup)
+
+// C20 (F9): the mutable state of a build context is only touched under its mutex.
+//@ protect context-state C20: type=internalContext ; fields=activeBuild,recentBuild,didDispose,latestHashes ; mutex=mutex ; in=api ; allow-wait=(*internalContext).Serve:waits only for the goroutine that starts its own HTTP server which never takes the context mutex
+
+// C20: goroutines that signal a wait group are announced (Add) before they are started.
+//@ waitgroup announce-before-start C20: in=api,bundler,linker
